@@ -46,6 +46,8 @@ FIXED_CALLERS = [
     "{ set_usr_field(bundle, HEX_REG_FIELD_USR_OVF, 1); }",
     "{ RdV = get_usr_field(bundle, HEX_REG_FIELD_USR_LPCFG) + clz32(RsV); }",
     "{ set_usr_field(bundle, HEX_REG_FIELD_USR_LPCFG, clz32(RsV)); }",
+    # a value-returning routine with a by-reference operand as a statement of an else arm
+    "{ if (RsV > RtV) { RdV = 1; } else { fcirc_add(bundle, RxV, siV, MuV, HEX_REG_ALIAS_CS0); } }",
 ]
 
 
@@ -324,6 +326,11 @@ class EngineC08(HistEngine):
                 out.count("states_executed")
                 if scoped_err is not None:
                     out.count("il_error_scoped")
+                    if re.search(r"bitvector expected|bool expected|operand widths", scoped_err) and not conv_done:
+                        # the isolated run itself is ill-sorted (e.g. an argument conversion applied to a boolean)
+                        V.append(Violation("C08", "convention", "ill-sorted-call-path", cfg,
+                                           {"caller": c["text"], "error": scoped_err[:200], "uses": c["uses"]}, step))
+                        conv_done = True
                     m_unset = re.search(r"read of unset local (\w+)$", scoped_err)
                     if m_unset and not conv_done and re.search(r'SETL\("%s", (?:UN)?SIGNED\(\d+, VARL\("ret_val"\)\)\)' % re.escape(m_unset.group(1)), code):
                         V.append(Violation("C08", "convention", "call-result-read-before-call", cfg,
@@ -402,9 +409,11 @@ class EngineC08(HistEngine):
                     r = self.fixed_reference(c["text"], a, b, st)
                     if r is not None:
                         out.count("fixed_reference_states")
-                        key, want = r
+                        pairs = r if isinstance(r, list) else [r]
+                        bad_pair = next(((k_, w_) for k_, w_ in pairs if scoped["written"].get(k_) != w_), None)
+                        key, want = bad_pair if bad_pair else pairs[0]
                         got = scoped["written"].get(key)
-                        if got != want:
+                        if bad_pair is not None:
                             V.append(Violation("C08", "convention", "bundled-vs-python", f"{cfg}:bundled",
                                                {"caller": c["text"], "reg": key, "got": _hx(got), "want": _hx(want), "Rs": hex(a & 0xFFFFFFFF), "Rt": hex(b & 0xFFFFFFFF)}, step))
                             conv_done = True
@@ -511,6 +520,11 @@ class EngineC08(HistEngine):
             return "Rd_op", (32, (B["fbrev"]["native"](rs) + B["revbit16"]["native"](rt & 0xFFFF)) & m32)
         if text == FIXED_CALLERS[6]:
             return "Rd_op", (32, (B["conv_round"]["native"](rs, 2) + B["conv_round"]["native"](rt, 0)) & m32)
+        if text == FIXED_CALLERS[14]:
+            if cref.wrap(rs, ("s", 32)) > cref.wrap(rt, ("s", 32)):
+                return [("Rd_op", (32, 1)), ("Rx_op", None)]
+            r7 = self.fixed_reference(FIXED_CALLERS[7], a, b, st)
+            return [("Rd_op", None), r7]
         if text == FIXED_CALLERS[7]:
             # by-reference register operand: fcirc_add reads Rx (old value), writes Rx and returns the new pointer
             rx, m, cs = st.reg("Rx_op"), st.reg("Mu_op"), st.reg("cs0_op")
